@@ -60,11 +60,20 @@ func ApplyClusterChanges(config *model.ClusterConfig, currentStatus *model.Clust
 			ReplicationFactor: nc.ReplicationFactor,
 		}
 
+		// A namespace is only created as a whole. If no ensemble can be selected for one of its shards,
+		// nothing is stored for it: storing the shards that did get an ensemble would publish a namespace
+		// whose hash space has a hole (or no shard at all) that is never filled, because the namespace
+		// counts as existing from then on. Leaving it out lets the next cluster change (or coordinator
+		// restart) create it, and does not consume shard ids.
+		serverIdx := newStatus.ServerIdx
+		complete := true
 		for _, shard := range sharding.GenerateShards(newStatus.ShardIdGenerator, nc.InitialShardCount) {
 			var esm []model.Server
 			if esm, err = ensembleSupplier(&nc, newStatus); err != nil {
-				slog.Error("failed to select new ensembles.", slog.Any("shard", shard), slog.Any("error", err))
-				continue
+				slog.Error("failed to select new ensembles, the namespace is not created.",
+					slog.String("namespace", nc.Name), slog.Any("shard", shard), slog.Any("error", err))
+				complete = false
+				break
 			}
 			shardMetadata := model.ShardMetadata{
 				Status:   model.ShardStatusUnknown,
@@ -79,7 +88,13 @@ func ApplyClusterChanges(config *model.ClusterConfig, currentStatus *model.Clust
 
 			nss.Shards[shard.Id] = shardMetadata
 			newStatus.ServerIdx = (newStatus.ServerIdx + nc.ReplicationFactor) % uint32(len(config.Servers))
-			shardsToAdd[shard.Id] = nc.Name
+		}
+		if !complete {
+			newStatus.ServerIdx = serverIdx
+			continue
+		}
+		for shardId := range nss.Shards {
+			shardsToAdd[shardId] = nc.Name
 		}
 		newStatus.Namespaces[nc.Name] = nss
 
